@@ -410,6 +410,11 @@ def run(ctx):
                "then the section pattern")
     crosscheck(ctx, "C17.R2", PCq + ".end_section", "ref_cfgparser.py",
                "end_section", PCq, "reader: closer names the open type")
+    # the printer ends with rstrip() and indents with blanks: what it drops
+    # or adds is exactly what the reader's strip() of each line ignores
+    crosscheck(ctx, "C17.R2", PCq + ".nextline", "ref_cfgparser.py",
+               "nextline", PCq, "reader: every line is strip()ped of all "
+               "surrounding whitespace")
 
     # ------------------------------------------------------------------ R3
     _order(ctx, fn)
